@@ -5,45 +5,63 @@ PROP = "C11"
 DRIVER = "c11"
 MODEL = "C11"
 MODEL_QUALID = "Model.Coalesce.run_script"
-FORMAT = ("script [n; (op a b)*] callers 0..n-1: op 1=Poll a 2=Drop a 4=Complete a b(0 ok,1 err,2 panic: outcome of caller a's own inner call) "
-          "5=Call a with key b (service.call: the role is decided here). "
-          "trace: per event [r; val; wake mask; mask of callers whose inner call is in flight] with "
-          "r: -1 no poll, 0 pending, 1 Ok(val), 2 Err(Service(val)), 3 LeaderCancelled, 4 RecvError, 5 panicked, 9 nothing to poll; "
-          "val = id of the caller whose inner call produced the value")
-RULE = ("random scripts over 2-6 callers and 1-3 keys: calls at any time (also after a key was freed), polls in any order, drops of "
+FORMAT = ("script [h; (op a b)*] callers 0..n-1 with n = h % 100; h // 100 = f selects how the driver builds and shares the service "
+          "(f%4: 0 fresh clone of one base service per call, 1 every call on the base value, 2 chain of clones, 3 base and one long-lived "
+          "clone alternately; (f//4)%2: key type whose Hash sends every key to one bucket; (f//8)%2: layer built through builder().name().build()); "
+          "op 1=Poll a 2=Drop a 4=Complete a b(0 ok,1 err,2 panic: outcome of caller a's own inner call) "
+          "5=Call a with key b (service.call: the role is decided here) 6=Arm a (the next Clone of a value produced by caller a's inner "
+          "call panics, once) 7=Call a with key b where the inner service's call() panics if this request reaches it. "
+          "trace: per event [r; val; wake mask; mask of callers whose inner call is in flight; mask of armed Clone panics] with "
+          "r: -1 nothing, 0 pending, 1 Ok(val), 2 Err(Service(val)), 3 LeaderCancelled, 4 RecvError, 5 panicked (poll, or the call() of op 7), "
+          "9 nothing to poll; val = id of the caller whose inner call produced the value")
+RULE = ("random scripts over 2-8 callers and 1-5 keys: calls at any time (also after a key was freed), polls in any order, drops of "
         "leaders and waiters at any point (before the first poll, while pending, after the inner call completed but before the leader "
-        "was polled), ok/err/panic/never outcomes, completions before the call; plus staged scenarios (leader + k waiters, then finish / "
-        "drop / panic, then late polls and a fresh call); plus all scripts up to a small length over 3 callers and 2 keys; "
+        "was polled), ok/err/panic/never outcomes, completions before the call, inner.call() panicking under a would-be leader or a "
+        "would-be waiter, Clone panics armed before the leader's completing poll or between it and a waiter's poll; every way of sharing "
+        "the service value (clone per call, one value, clone chain, two values), colliding-hash keys, builder route; plus staged scenarios "
+        "(leader + k waiters, then finish / drop / panic / clone panic, then late polls and a fresh call; a call that panics followed by "
+        "requests for the same key); plus all scripts up to a small length over 3 callers and 2 keys (two alphabets); "
         "non-trivial = some request was coalesced as a waiter")
-TRUSTED = ["tokio broadcast channel (one message, try_recv: value before Closed, Closed once the only sender is dropped) and the "
-           "parking_lot mutex around the map are modelled; tied to the libraries only by this correspondence run",
+TRUSTED = ["tokio broadcast channel (one message, try_recv: value before Closed, Closed once the only sender is dropped, one Clone per "
+           "receipt) and the parking_lot mutex around the map are modelled; tied to the libraries only by this correspondence run",
            "poll atomicity: call(), poll and drop each take the map lock once and never hold it across a Pending"]
 ASSUMPTIONS = ["single-threaded deterministic executor: one call/poll/drop at a time (a leader's Drop removes the key before its inner "
-               "future is dropped; a call racing in between on another thread is outside the model)"]
+               "future is dropped; a call racing in between on another thread is outside the model)",
+               "panics are contained at the boundary of the call()/poll they occur in (catch_unwind, as a task boundary does) and the "
+               "panicked future is dropped"]
+W = 5       # trace integers per event
+
+
+def ncallers(s):
+    h = s[0] if s else 0
+    return 0 if h < 0 else h % 100
 
 
 def events(s):
-    n = max(0, s[0]) if s else 0
+    n = ncallers(s)
     body = s[1:]
     evs = []
     for k in range(0, len(body) - len(body) % 3, 3):
         op, a, b = body[k:k + 3]
-        if op in (1, 2, 4, 5) and 0 <= a < n:
+        if op in (1, 2, 4, 5, 6, 7) and 0 <= a < n:
             evs.append((op, a, b))
     return n, evs
 
 
 def decode(s, t):
     n, evs = events(s)
-    if len(t) != 4 * len(evs):
+    if len(t) != W * len(evs):
         return None
-    return n, [(e, t[4 * k:4 * k + 4]) for k, e in enumerate(evs)]
+    return n, [(e, t[W * k:W * k + W]) for k, e in enumerate(evs)]
 
 
 CODE = {0: 1, 1: 2}
 
 
 def monitor(s, t):
+    """The property over the implementation's trace.  What the implementation is told by the script (calls, keys, outcomes of
+    the inner calls, which Clone / inner.call() panics) and what it is seen to do (results of polls, which inner calls are in
+    flight, wake flags, whether an armed Clone panic went off) - nothing about how it does it."""
     d = decode(s, t)
     if d is None:
         return "malformed or panicking run: %s" % t[:10]
@@ -53,23 +71,33 @@ def monitor(s, t):
     leader_of = [None] * n      # for waiters
     fate = [None] * n           # for leaders: None (leading) | ("res", code) | "gone"
     comp = [None] * n           # outcome of the effective Complete
-    polled = [False] * n
+    polled = [False] * n        # returned Pending at least once (so it has handed out a waker)
     fl = 0
+    bm = 0
+
+    def settled(l, mask, k, how):
+        # no request waits forever: a pending waiter must be woken no later than the event that settles its leader's fate
+        for j in range(n):
+            if state[j] == "waiter" and leader_of[j] == l and polled[j] and not (mask >> j) & 1:
+                return "waiter %d is pending and was not woken when its leader %d %s: nothing will poll it again (event %d)" % (j, l, how, k)
+        return None
+
     for k, (e, o) in enumerate(evt):
         op, a, b = e
-        r, val, mask, fl2 = o
+        r, val, mask, fl2, bm2 = o
+        went_off = bm & ~bm2        # armed Clone panics that fired during this event
         # clause 1: at most one inner call in flight per key, always
         per = {}
         for j in range(n):
             if (fl2 >> j) & 1:
-                if key[j] is None and not (op == 5 and j == a):
+                if key[j] is None and not (op in (5, 7) and j == a):
                     return "inner call of caller %d in flight before its call() (event %d)" % (j, k)
                 kk = key[j] if key[j] is not None else max(0, b)
                 per[kk] = per.get(kk, 0) + 1
         for kk, c in per.items():
             if c > 1:
                 return "%d inner calls in flight for key %d (event %d)" % (c, kk, k)
-        if op == 5:
+        if op in (5, 7):
             if state[a] == "idle":
                 kk = max(0, b)
                 key[a] = kk
@@ -78,15 +106,28 @@ def monitor(s, t):
                     # arrived while a call for this key is in flight: must not call the inner service
                     if fl2 != fl:
                         return "caller %d arrived while caller %d's call for key %d was in flight but the in-flight set changed %d -> %d (event %d)" % (a, leaders[0], kk, fl, fl2, k)
+                    if r == 5:
+                        return "caller %d arrived while caller %d's call for key %d was in flight but reached the inner service (its call() panicked) (event %d)" % (a, leaders[0], kk, k)
                     state[a] = "waiter"
                     leader_of[a] = leaders[0]
-                else:
+                elif op == 5:
                     # key free: a fresh inner call must start now
                     if fl2 != fl | (1 << a):
                         return "caller %d arrived with key %d free but no fresh inner call started (in-flight %d -> %d, event %d)" % (a, kk, fl, fl2, k)
                     state[a] = "leader"
+                else:
+                    # key free and inner.call() panics: the call unwinds, there is no future and no inner call;
+                    # the key must still be free (checked when the next request for it arrives)
+                    if r != 5:
+                        return "caller %d arrived with key %d free, inner.call() panicked, but call() reported r=%d (event %d)" % (a, kk, r, k)
+                    if fl2 != fl:
+                        return "panicking inner.call() of caller %d changed the in-flight set %d -> %d (event %d)" % (a, fl, fl2, k)
+                    state[a] = "resolved"
             elif fl2 != fl:
                 return "repeated Call changed the in-flight set (event %d)" % k
+        elif op == 6:
+            if fl2 != fl:
+                return "Arm changed the in-flight set (event %d)" % k
         elif op == 4:
             if comp[a] is None:
                 comp[a] = b if b in (0, 1) else 2
@@ -100,6 +141,9 @@ def monitor(s, t):
                 state[a] = "dropped"
                 if fl2 != fl & ~(1 << a):
                     return "leader %d dropped: in-flight set %d -> %d (event %d)" % (a, fl, fl2, k)
+                m = settled(a, mask, k, "was dropped")
+                if m:
+                    return m
             else:
                 if state[a] == "waiter":
                     state[a] = "dropped"
@@ -107,9 +151,9 @@ def monitor(s, t):
                     return "drop of non-leader %d changed the in-flight set (event %d)" % (a, k)
         elif op == 1:
             if state[a] == "leader":
-                polled[a] = True
                 c = comp[a]
                 if c is None:
+                    polled[a] = True
                     if r != 0:
                         return "leader %d resolved (r=%d) before its inner call completed (event %d)" % (a, r, k)
                     if fl2 != fl:
@@ -119,25 +163,41 @@ def monitor(s, t):
                         if r != 5:
                             return "leader %d: inner panic but r=%d (event %d)" % (a, r, k)
                         fate[a] = "gone"
+                        how = "panicked"
+                    elif (went_off >> a) & 1:
+                        # cloning the result for the waiters panicked inside the leader's poll: the leader panics
+                        if r != 5:
+                            return "leader %d: a Clone of its result panicked in its poll but r=%d (event %d)" % (a, r, k)
+                        fate[a] = "gone"
+                        how = "panicked (Clone of its result)"
                     else:
                         if r != CODE[c] or val != a:
                             return "leader %d: inner outcome %d but r=%d val=%d (event %d)" % (a, c, r, val, k)
                         fate[a] = ("res", CODE[c])
+                        how = "completed"
                     state[a] = "resolved"
                     if fl2 != fl & ~(1 << a):
                         return "leader %d finished: in-flight set %d -> %d (event %d)" % (a, fl, fl2, k)
+                    m = settled(a, mask, k, how)
+                    if m:
+                        return m
             elif state[a] == "waiter":
                 l = leader_of[a]
                 f = fate[l]
                 if f is None:
-                    # clause: a waiter is pending only while its leader is still leading - and it keeps itself awake
+                    # a waiter is pending while its leader is still leading (how it arranges to be polled again is its business:
+                    # waking itself now, or being woken when the leader's fate is settled - see settled())
                     if r != 0:
                         return "waiter %d resolved (r=%d) while its leader %d is still in flight (event %d)" % (a, r, l, k)
-                    if not (mask >> a) & 1:
-                        return "pending waiter %d did not arrange to be polled again (event %d)" % (a, k)
+                    polled[a] = True
                 elif f == "gone":
                     if r != 3:
                         return "waiter %d: leader %d dropped/panicked but r=%d (expected LeaderCancelled at this poll) (event %d)" % (a, l, r, k)
+                    state[a] = "resolved"
+                elif (went_off >> l) & 1:
+                    # the clone for this waiter could not be made: its own poll panics, nobody else is affected
+                    if r != 5:
+                        return "waiter %d: the Clone of leader %d's result panicked in its poll but r=%d (event %d)" % (a, l, r, k)
                     state[a] = "resolved"
                 else:
                     if r != f[1] or val != l:
@@ -151,6 +211,7 @@ def monitor(s, t):
                 if fl2 != fl:
                     return "no-op poll changed the in-flight set (event %d)" % k
         fl = fl2
+        bm = bm2
     return None
 
 
@@ -168,27 +229,53 @@ def corpus():
         [4, 5, 0, 1, 5, 1, 2, 5, 2, 1, 5, 3, 2, 4, 1, 0, 1, 1, 0, 1, 2, 0, 1, 3, 0, 4, 0, 1, 1, 0, 0, 1, 2, 0],
         # completed inner call, leader dropped before being polled
         [2, 5, 0, 0, 5, 1, 0, 4, 0, 0, 2, 0, 0, 1, 1, 0],
+        # inner.call() panics under the would-be leader 0 (e253d90): the key is free, caller 1 leads and completes, 2 waits on 1
+        [3, 7, 0, 4, 1, 0, 0, 5, 1, 4, 5, 2, 4, 1, 2, 0, 4, 1, 0, 1, 1, 0, 1, 2, 0],
+        # the same through one service value / colliding-hash keys / builder
+        [103, 7, 0, 4, 5, 1, 4, 4, 1, 1, 1, 1, 0], [403, 7, 0, 4, 5, 1, 4, 4, 1, 1, 1, 1, 0], [803, 7, 0, 4, 5, 1, 4, 4, 1, 1, 1, 1, 0],
+        # a would-be waiter never reaches the panicking inner.call()
+        [2, 5, 0, 3, 7, 1, 3, 4, 0, 0, 1, 0, 0, 1, 1, 0],
+        # Clone of the leader's result panics in the leader's completing poll (553aee1): waiters get LeaderCancelled, key free
+        [4, 5, 0, 2, 5, 1, 2, 1, 1, 0, 6, 0, 0, 4, 0, 0, 1, 0, 0, 1, 1, 0, 5, 2, 2, 4, 2, 1, 1, 2, 0],
+        # ... of an error result; no waiter present, a later request must lead
+        [2, 5, 0, 0, 6, 0, 0, 4, 0, 1, 1, 0, 0, 5, 1, 0, 4, 1, 0, 1, 1, 0],
+        # Clone panics for the first waiter only (armed after the leader completed): the second waiter still gets the result
+        [3, 5, 0, 1, 5, 1, 1, 5, 2, 1, 4, 0, 0, 1, 0, 0, 6, 0, 0, 1, 1, 0, 1, 2, 0],
+        # eight callers on colliding keys 0..4
+        [408, 5, 0, 0, 5, 1, 1, 5, 2, 2, 5, 3, 3, 5, 4, 4, 5, 5, 0, 5, 6, 1, 5, 7, 4, 4, 4, 0, 1, 4, 0, 1, 7, 0, 4, 0, 1, 1, 0, 0, 1, 5, 0,
+         4, 1, 0, 1, 6, 0, 1, 1, 0, 1, 6, 0],
     ]
 
 
-def random_script(rng, maxn=6, maxlen=36, nkeys=None):
+def header(rng, n, plain=0.4):
+    """h = n + 100 f: how the driver builds and shares the service value"""
+    if rng.random() < plain:
+        return n
+    return n + 100 * (rng.randrange(4) + 4 * rng.randrange(2) + 8 * rng.randrange(2))
+
+
+def random_script(rng, maxn=8, maxlen=36, nkeys=None):
     n = rng.randint(2, maxn)
-    nk = nkeys or rng.choice([1, 2, 2, 3])
-    s = [n]
+    nk = nkeys or rng.choice([1, 2, 2, 3, 5])
+    s = [header(rng, n)]
     called = set()
+    faults = rng.random() < 0.5
     for _ in range(rng.randint(4, maxlen)):
         x = rng.random()
         if x < 0.28:
             cand = [i for i in range(n) if i not in called]
             i = rng.choice(cand) if cand and rng.random() < 0.9 else rng.randrange(n)
             called.add(i)
-            s += [5, i, rng.randrange(nk)]
-        elif x < 0.68:
+            s += [7 if faults and rng.random() < 0.2 else 5, i, rng.randrange(nk)]
+        elif x < 0.66:
             i = rng.choice(sorted(called)) if called and rng.random() < 0.9 else rng.randrange(n)
             s += [1, i, 0]
-        elif x < 0.80:
+        elif x < 0.78:
             i = rng.choice(sorted(called)) if called and rng.random() < 0.9 else rng.randrange(n)
             s += [2, i, 0]
+        elif x < 0.84 and faults:
+            i = rng.choice(sorted(called)) if called and rng.random() < 0.8 else rng.randrange(n)
+            s += [6, i, 0]
         else:
             s += [4, rng.randrange(n), rng.choice([0, 0, 1, 1, 2])]
     # tail: everything still alive is polled twice (bounded number of polls after the last external event)
@@ -199,20 +286,21 @@ def random_script(rng, maxn=6, maxlen=36, nkeys=None):
 
 
 def staged(rng):
-    """leader + waiters on one key, some polled; then the leader finishes / is dropped / panics; late polls; a fresh call"""
-    n = rng.randint(3, 6)
+    """leader + waiters on one key, some polled; then the leader finishes / is dropped / panics (inner future, or the Clone of its
+    result); late polls (a Clone panic may hit one waiter); a fresh call"""
+    n = rng.randint(3, 8)
     k0 = rng.randrange(3)
-    s = [n, 5, 0, k0]
+    s = [header(rng, n), 5, 0, k0]
     ws = list(range(1, n - 1))
     for w in ws:
-        s += [5, w, k0 if rng.random() < 0.8 else (k0 + 1) % 3]
+        s += [7 if rng.random() < 0.1 else 5, w, k0 if rng.random() < 0.8 else (k0 + 1) % 3]
         if rng.random() < 0.5:
             s += [1, w, 0]
     if rng.random() < 0.7:
         s += [1, 0, 0]
     if rng.random() < 0.3 and ws:
         s += [2, rng.choice(ws), 0]
-    end = rng.choice(["ok", "err", "panic", "drop", "drop_after_complete"])
+    end = rng.choice(["ok", "err", "panic", "drop", "drop_after_complete", "clone_panic", "clone_panic", "waiter_clone_panic"])
     if end == "ok":
         s += [4, 0, 0, 1, 0, 0]
     elif end == "err":
@@ -221,20 +309,49 @@ def staged(rng):
         s += [4, 0, 2, 1, 0, 0]
     elif end == "drop":
         s += [2, 0, 0]
+    elif end == "clone_panic":
+        x = [[6, 0, 0], [4, 0, rng.choice([0, 1])]]
+        rng.shuffle(x)
+        s += x[0] + x[1] + [1, 0, 0]
+    elif end == "waiter_clone_panic":
+        s += [4, 0, rng.choice([0, 1]), 1, 0, 0, 6, 0, 0]
     else:
         s += [4, 0, rng.choice([0, 1]), 2, 0, 0]
     order = ws[:]
     rng.shuffle(order)
     fresh_at = rng.randint(0, len(order))
+    fresh = [7, n - 1, k0, 5, n - 1, k0] if rng.random() < 0.1 else [5, n - 1, k0]
     for idx, w in enumerate(order):
         if idx == fresh_at:
-            s += [5, n - 1, k0]
+            s += fresh
         s += [1, w, 0]
     if fresh_at == len(order):
-        s += [5, n - 1, k0]
+        s += fresh
     s += [1, n - 1, 0, 4, n - 1, rng.choice([0, 1]), 1, n - 1, 0]
     for w in ws:
         s += [1, w, 0]
+    return s
+
+
+def call_panics(rng):
+    """inner.call() panics under a would-be leader; then requests for the same key (the first must lead), waiters on it, results"""
+    n = rng.randint(3, 6)
+    k0 = rng.randrange(4)
+    s = [header(rng, n)]
+    if rng.random() < 0.3:
+        s += [5, n - 1, (k0 + 1) % 4]                  # an unrelated leader on another key
+    s += [7, 0, k0]
+    if rng.random() < 0.3:
+        s += [1, 0, 0]                                  # nothing to poll
+    for w in range(1, n - 1):
+        s += [7 if rng.random() < 0.25 else 5, w, k0 if rng.random() < 0.85 else (k0 + 1) % 4]
+        if rng.random() < 0.5:
+            s += [1, w, 0]
+    l = rng.randrange(1, n - 1)
+    s += [4, l, rng.choice([0, 1, 2])]
+    for _ in range(2):
+        for w in range(n):
+            s += [1, w, 0]
     return s
 
 
@@ -242,7 +359,7 @@ def late_drop(rng):
     """a leader finishes and is polled, but its (finished) future is dropped only later, after a new leader for
     the same key has started and a waiter has joined it"""
     k0 = rng.randrange(3)
-    s = [4, 5, 0, k0, 1, 0, 0, 4, 0, rng.choice([0, 1]), 1, 0, 0]      # leader 0: call, poll, complete, poll (done)
+    s = [header(rng, 4), 5, 0, k0, 1, 0, 0, 4, 0, rng.choice([0, 1]), 1, 0, 0]      # leader 0: call, poll, complete, poll (done)
     s += [5, 1, k0]                                                     # new leader 1 on the same key
     if rng.random() < 0.7:
         s += [1, 1, 0]
@@ -256,12 +373,17 @@ def late_drop(rng):
     return s
 
 
-def exhaustive(depth, n=3):
-    alpha = [(5, 0, 0), (5, 1, 0), (5, 2, 0), (5, 2, 1), (1, 0, 0), (1, 1, 0), (1, 2, 0),
-             (2, 0, 0), (2, 1, 0), (4, 0, 0), (4, 0, 2), (4, 2, 1)]
+ALPHA = [(5, 0, 0), (5, 1, 0), (5, 2, 0), (5, 2, 1), (1, 0, 0), (1, 1, 0), (1, 2, 0),
+         (2, 0, 0), (2, 1, 0), (4, 0, 0), (4, 0, 2), (4, 2, 1)]
+# the two panics that are not the inner future's: inner.call() and Clone
+ALPHA2 = [(7, 0, 0), (5, 0, 0), (5, 1, 0), (7, 1, 0), (5, 2, 0), (6, 0, 0), (1, 0, 0), (1, 1, 0), (1, 2, 0),
+          (4, 0, 0), (4, 0, 1), (2, 0, 0)]
+
+
+def exhaustive(depth, h=3, alpha=ALPHA):
     for L in range(1, depth + 1):
         for evs in itertools.product(alpha, repeat=L):
-            s = [n]
+            s = [h]
             for e in evs:
                 s += list(e)
             yield s
@@ -271,14 +393,21 @@ def generate(rng, tier):
     out = []
     if tier == "quick":
         out += [random_script(rng) for _ in range(1500)]
-        out += [staged(rng) for _ in range(700)]
+        out += [staged(rng) for _ in range(800)]
+        out += [call_panics(rng) for _ in range(250)]
         out += [late_drop(rng) for _ in range(100)]
         out += list(exhaustive(2))
+        out += list(exhaustive(2, 3, ALPHA2))
+        out += list(exhaustive(2, 103, ALPHA2))
     else:
-        out += [random_script(rng, 6, 70) for _ in range(30000)]
-        out += [staged(rng) for _ in range(10000)]
+        out += [random_script(rng, 8, 70) for _ in range(30000)]
+        out += [staged(rng) for _ in range(12000)]
+        out += [call_panics(rng) for _ in range(4000)]
         out += [late_drop(rng) for _ in range(2000)]
         out += list(exhaustive(5))
+        out += list(exhaustive(5, 3, ALPHA2))
+        out += list(exhaustive(3, 103, ALPHA2))
+        out += list(exhaustive(3, 1503, ALPHA))
     return out
 
 
@@ -289,7 +418,7 @@ def nontrivial(s, t):
     n, evt = d
     fl = 0
     for (e, o) in evt:
-        if e[0] == 5 and o[3] == fl and fl != 0:
+        if e[0] in (5, 7) and o[3] == fl and fl != 0 and o[0] != 5:
             return True     # a call that did not start an inner call while something was in flight
         fl = o[3]
     return False
@@ -301,8 +430,14 @@ def classify(s, t):
     if d:
         n, evt = d
         out.append("callers%d" % n)
-        out.append("keys%d" % len(set(max(0, e[2]) for (e, _) in evt if e[0] == 5)))
-        rs = set(o[0] for (_, o) in evt)
+        out.append("keys%d" % len(set(max(0, e[2]) for (e, _) in evt if e[0] in (5, 7))))
+        f = s[0] // 100 if s and s[0] >= 0 else 0
+        out.append("share%d" % (f % 4))
+        if (f // 4) % 2:
+            out.append("colliding_hash_keys")
+        if (f // 8) % 2:
+            out.append("builder_route")
+        rs = set(o[0] for (e, o) in evt if e[0] == 1)
         for r, name in ((1, "ok"), (2, "service_err"), (3, "leader_cancelled"), (4, "recv_error"), (5, "panic")):
             if r in rs:
                 out.append("saw_" + name)
@@ -312,17 +447,26 @@ def classify(s, t):
             out.append("has_waiter")
         if any(e[0] == 2 for (e, _) in evt):
             out.append("has_drop")
+        if any(e[0] == 7 and o[0] == 5 for (e, o) in evt):
+            out.append("inner_call_panicked")
+        if any(e[0] == 7 and o[0] == -1 and o[3] != 0 for (e, o) in evt):
+            out.append("call_panic_armed_for_a_waiter")
+        bm = 0
+        for (e, o) in evt:
+            if e[0] == 1 and bm & ~o[4]:
+                out.append("clone_panic_in_leader_poll" if (bm & ~o[4]) >> e[1] & 1 else "clone_panic_in_waiter_poll")
+            bm = o[4]
         # a key used again by a fresh leader after an earlier leader of that key
         leaders = {}
         fl = 0
         for (e, o) in evt:
-            if e[0] == 5 and o[3] != fl:
+            if e[0] in (5, 7) and (o[3] != fl or o[0] == 5):
                 kk = max(0, e[2])
                 leaders[kk] = leaders.get(kk, 0) + 1
             fl = o[3]
         if any(v > 1 for v in leaders.values()):
             out.append("key_reused")
-    return out
+    return sorted(set(out))
 
 
 def shrink(s):
@@ -330,3 +474,5 @@ def shrink(s):
     k = len(body) // 3
     for i in range(k):
         yield head + body[:3 * i] + body[3 * i + 3:]
+    if head and head[0] >= 100:
+        yield [head[0] % 100] + body
